@@ -4,7 +4,8 @@
    DESIGN.md): it is exercised by bounded execution in the harness. *)
 From Coq Require Import List ZArith Bool.
 From Lox Require Import Parse.Grammar Parse.Tables Parse.ParseRuntime Parse.Validator Parse.Actions
-  Parse.Refine Parse.Recovery Parse.RecoveryFacts Parse.RecoverySound Parse.RecoveryBlame Parse.RecoveryAgree.
+  Parse.Refine Parse.Recovery Parse.RecoveryFacts Parse.RecoverySound Parse.RecoveryBlame Parse.RecoveryAgree
+  Parse.RecoveryProgress.
 Import ListNotations.
 
 (* no panic, for every validated table set and every token sequence, lexer ERROR tokens included *)
@@ -54,7 +55,17 @@ Theorem C09_first_error_is_blame :
          | Continue s' => ploop tb eb true discard k s'
          | Accept s0 => Accept s0 | Reject s0 => Reject s0 | Crash => Crash | Fuel => Fuel
          end) /\
-      (exists id ks, lasym s = VTok (la s) id /\ recover_errsym tb s = Some (VErr (VTok (la s) id) ks)).
+      (exists id ks, lasym s = VTok (la s) id /\ recover_errsym tb s = Some (VErr (VTok (la s) id) ks)) /\
+      (* nothing is dropped by the progress rule at the first recovery of a run *)
+      rec_shifts s = (-1)%Z /\ (0 <= shifts s)%Z /\
+      (forall f, recover tb f s =
+         match recover_errsym tb s with
+         | Some e => match skip_errors tb f s with
+                     | Continue s1 => recover_outer tb f e s1
+                     | Accept s0 => Accept s0 | Reject s0 => Reject s0 | Crash => Crash | Fuel => Fuel
+                     end
+         | None => Crash
+         end).
 Proof. exact first_error_is_blame. Qed.
 Print Assumptions C09_first_error_is_blame.
 
@@ -80,3 +91,15 @@ Theorem C09_parse_fuel_monotone :
     parse tb eb rec discard f1 zw = o -> parse tb eb rec discard f2 zw = o.
 Proof. exact parse_fuel_monotone_rec. Qed.
 Print Assumptions C09_parse_fuel_monotone.
+
+(* error recovery makes progress: along a run on w the parser enters _recover at
+   most 2*|w|+2 times (each recovery is preceded by a real shift or drops a
+   token).  Together with finiteness of reduction chains under one lookahead
+   (not proved) this is termination. *)
+Theorem C09_recoveries_make_progress :
+  forall g tb c nterm eb discard, validate g tb c nterm = true ->
+    forall w, tokens1 nterm w -> forall fuel s0,
+      read_token tb (init_state (zs w)) = Some s0 ->
+      nrec tb eb discard fuel s0 <= 2 * length w + 2.
+Proof. exact recoveries_make_progress. Qed.
+Print Assumptions C09_recoveries_make_progress.
